@@ -389,6 +389,38 @@ NOT installed, so a failed verification ends with the callbacks — strict or no
 def contentSecurityWithCallbacks (C : BlockCipher) (env : CsEnv) (cfg : CsCfg) (req : CsReq) (inner : Inner) (st : Nat) : Resp :=
   if csVerificationFails env cfg req then { ran := false, status := st } else contentSecurity C env cfg req inner
 
+/-! ## who owns the bytes behind `r.Body` after `computeBodySignature` (several requests in flight) -/
+
+namespace Own
+
+/-- what happens to the memory behind request bodies: request `r` goes through `computeBodySignature` with the bytes `body`
+(digested, and kept for the readers that follow), or the handler of request `r` reads its body -/
+inductive Ev where
+  | verify (r : Nat) (body : Bytes)
+  | read (r : Nat)
+
+/-- `bufs` = the buffers ever handed out, `owner r` = the buffer `r.Body` of request `r` reads from -/
+structure St where
+  bufs  : List Bytes := []
+  owner : Nat → Option Nat := fun _ => none
+
+/-- the code that exists: `iox.DupReadCloser` declares a NEW `bytes.Buffer` in every call (`var buf bytes.Buffer`); the copy
+of the body lives there and nothing else ever writes it -/
+def stepFresh (st : St) : Ev → St
+  | .verify r body => { bufs := st.bufs ++ [body], owner := fun x => if x = r then some st.bufs.length else st.owner x }
+  | .read _ => st
+
+/-- a WRONG variant (the shape of seeded change C18-9): one buffer taken from a pool and put back when
+`computeBodySignature` returns — the next call gets the same memory -/
+def stepPooled (st : St) : Ev → St
+  | .verify r body => { bufs := [body], owner := fun x => if x = r then some 0 else st.owner x }
+  | .read _ => st
+
+/-- what the handler of request `r` reads -/
+def readOf (st : St) (r : Nat) : Option Bytes := (st.owner r).bind fun i => st.bufs[i]?
+
+end Own
+
 /-! ## JWT -/
 
 /-- what `doParseToken` returned -/
